@@ -77,7 +77,10 @@ def apply_fault(w, metas, fault, rng):
         ma, mb = metas[id(a)]["ovni"], metas[id(b)]["ovni"]
         if fault == "appid":
             ma["app_id"] = p.appid
-            mb["app_id"] = p.appid + 1 + rng.below(3)
+            # a different number, or something that is no valid app id at all (0, a string) next to the valid one
+            mb["app_id"] = rng.choice([p.appid + 1 + rng.below(3), p.appid + 1, 0, 0, "1", -p.appid])
+            if rng.chance(50):
+                ma["app_id"], mb["app_id"] = mb["app_id"], ma["app_id"]
         elif fault == "rank":
             ma["rank"], ma["nranks"] = p.rank, p.nranks
             mb["rank"], mb["nranks"] = (p.rank + 1) % p.nranks if p.nranks > 1 else None, p.nranks
